@@ -18,7 +18,7 @@ P = "eemeter.sufficiency_criteria."
 def build(case):
     tz = case.get("tz", "America/Chicago")
     n = case["n_days"]
-    idx = pd.date_range("2022-01-01", periods=n, freq="D", tz=tz)
+    idx = pd.date_range(case.get("start", "2022-01-01"), periods=n, freq="D", tz=tz)
     rng = np.random.default_rng(case.get("seed", 0))
     obs = pd.Series(30 + rng.normal(0, 3, n), index=idx, name="observed")
     temp = pd.Series(55 + 20 * np.sin(np.arange(n) / 58.0), index=idx, name="temperature")
@@ -28,6 +28,8 @@ def build(case):
         temp.iloc[d] = np.nan
     if case.get("negative"):
         obs.iloc[5] = -4.0
+        if case.get("negative_on_incomplete_row"):
+            temp.iloc[5] = np.nan          # the only negative reading sits on a day without temperature
     if case.get("extreme"):
         obs.iloc[9] = 900.0
     return obs, temp
@@ -44,7 +46,7 @@ def expected(case, obs, temp):
     first, last = both[both].index.min(), both[both].index.max()
     if pd.isna(first):
         return {P + "no_data"} | ({P + "incorrect_number_of_total_days"} if not rep else set()), True
-    n_total = (last - first).days + 1
+    n_total = (last.tz_localize(None) - first.tz_localize(None)).days + 1        # calendar days on the data's own clock
     if not rep and (n_total > 365 or n_total < 329):
         exp.add(P + "incorrect_number_of_total_days")
     valid_t = temp.notna().values
@@ -244,6 +246,7 @@ def run(tier="quick", seed=0):
                 cases.append({"reporting": rep, "entry": entry, "n_days": 365, "missing_temp": list(range(95, 95 + k))})  # April (30 days)
             cases.append({"reporting": rep, "entry": entry, "n_days": 365, "negative": True, "electric": False})
             cases.append({"reporting": rep, "entry": entry, "n_days": 365, "negative": True, "electric": True})
+            cases.append({"reporting": rep, "entry": entry, "n_days": 365, "negative": True, "electric": False, "negative_on_incomplete_row": True})
             cases.append({"reporting": rep, "entry": entry, "n_days": 365, "extreme": True})
             cases.append({"reporting": rep, "entry": entry, "n_days": 365, "tz": "UTC"})
     if tier == "quick":
@@ -260,6 +263,10 @@ def run(tier="quick", seed=0):
                     cases.append({"reporting": rep, "entry": entry, "n_days": n, "missing_meter": lead + trail})
                     if tier == "thorough":
                         cases.append({"reporting": rep, "entry": entry, "n_days": n, "missing_temp": lead + trail})
+    # spans whose first day is in standard time and whose last day is in daylight-saving time (an hour short in elapsed time), and the reverse
+    for start, n in (("2021-12-01", 328), ("2021-12-01", 329), ("2019-03-10", 365), ("2019-03-10", 366), ("2021-06-01", 329), ("2021-11-01", 366)):
+        for entry in ("frame", "series"):
+            cases.append({"reporting": False, "entry": entry, "n_days": n, "start": start})
     cases += hourly_cases(tier)
     for case in cases:
         try:
